@@ -141,7 +141,8 @@ CLAIMED.update({
         text=("Decides the mechanism the statement rests on: every __init__ field of the nine stateful classes is bound to a fresh or caller-owned object; class-level "
               "mutables are never mutated through an instance; the container templates are only ever copied, by copy routines that return constructor calls; and every "
               "write of the API closure that reaches an object shared between instances (class-level, module-level, schema-family objects) is one of the enumerated "
-              "idempotent lazy caches with an argument-independent value; plus the deep-copy rules of C14."),
+              "idempotent lazy caches with an argument-independent value, or a new per-class table kept in the class's own dictionary / a complete fresh table "
+              "registered under a key of a class-level registry (fill, then publish; guarded; not edited afterwards); plus the deep-copy rules of C14."),
         note="Field-based, flow-insensitive aliasing. A fresh matcher object's references to schema nodes are treated as shared. ElementTree objects of the schema are read-only by the same rule.",
         design='DESIGN.md section 4, C13'),
     'C19': dict(
@@ -151,7 +152,7 @@ CLAIMED.update({
               "import; every explicit raise of an undocumented class that can escape an entry point is either caught on every call path or discharged by a schema-derived "
               "argument (particle tags, minOccurs domain, content kinds, parent/child premise), else reported; no entry-point parameter reaches a subscript unchecked; no "
               "exception object is built and dropped; every eval() site's schema-derived name domain resolves in its module's namespace; the child-shortcut's name "
-              "arithmetic sits behind its membership gate."),
+              "arithmetic sits behind its membership gate; an argument is not dereferenced before its type was checked; removing an attribute that is not set cannot raise."),
         note="Does not decide 'never hangs', RecursionError, or implicit exceptions outside the catalogue. Known findings KF-05/06/07/08/09/17.",
         design='DESIGN.md section 4, C19'),
     'C20': dict(
@@ -193,7 +194,8 @@ CLAIMED.update({
         category='other',
         technique='set/reset pairing of matcher flags between the call closures of add_child and remove (write effects + loop extent), guard analysis of the resets',
         text=("Decides for each matcher flag written on the insertion path whether the call closure of remove() contains a reset with the same traversal extent: duplicates "
-              "are pruned (guards checked), requirement flags and the immediate choice commitment are reset under no condition beyond the commitment test; force_validate "
+              "are pruned (guards checked), requirement flags and the immediate choice commitment are reset exactly when the removed child was the last element of its leaf "
+              "(the guard of the reset is evaluated for leaf counts 0 / 1 / >= 2, before or after the detachment by dominance) and under no further condition; force_validate "
               "has no reset (KF-03) and chosen_child is reset without the path loop the insertion uses (KF-04); only owner functions re-point the container root; the flag "
               "initialiser fills only flags that are still None (R-INIT.flags, KF-19); memo fields are coherent (R-MEMO)."),
         note="Does not decide observational equivalence with a rebuilt twin (run-time behaviour).",
